@@ -81,8 +81,8 @@ def calcExpiresAtAfterRead (c : TCfg) (n : TNode) (now : Int) : TNode :=
   let d := c.expRead n.key n.val (durationTo n.exp now)
   if d ≤ 0 then n else
   let cur := durationTo n.exp now
-  let diff := wrapS 64 (d - cur)
-  if diff != 0 then { n with exp := deadlineAfter now d } else n
+  -- (until /repo 0d976a3 the test was xmath.Abs(int64(d - cur)) > 0, which is false for d - cur = MinInt64: finding F19)
+  if d != cur then { n with exp := deadlineAfter now d } else n
 
 def getCause (n : TNode) (now : Int) (c : Cause) : Cause := if hasExpired n now then .expiration else c
 
